@@ -430,6 +430,11 @@ def d4(ctx, F):
         r = flow.reach_avoiding(dec, [c.bb], [])
         ctx.check(not (r & none_blocks), "C05.D4.no-consume-before-complete", "decode:consume-then-none:%s" % c.name(),
                   "%s is never followed by an `Ok(None)` (need more bytes) exit" % c.name(), c.span)
+    # the decoder only ever takes bytes off the front of the buffer: it never replaces / clears the buffer as a whole (bytes already
+    # received behind the current frame belong to the next frames)
+    whole = [s_.get("span", dec.span) for i_, j_, pl_, rv_, s_ in dec.assigns() if pl_["l"] == 2 and pl_["p"] == ["*"]]
+    whole += [c.span for c in dec.calls() if strip_generics(c.callee) in ("core::mem::replace", "core::mem::take", "core::mem::swap") and any(flow.root_local(dec, a) == 2 for a in c.args if a.get("k") in ("copy", "move"))]
+    ctx.check(not whole, "C05.D4.exact-consumption", "decode:buffer-replaced", "decode never replaces the source buffer as a whole (only consumes from its front)", (whole or [dec.span])[0])
     # guards
     guards = []
     for i, bl in enumerate(dec.blocks):
